@@ -4,6 +4,7 @@ import sys
 import hashlib
 
 _REC = None          # list collecting events while recording
+_READS = False       # also record opens for reading (C12 independence check)
 _INSTALLED = False
 _WFLAGS = os.O_WRONLY | os.O_RDWR | os.O_CREAT | os.O_TRUNC | os.O_APPEND
 
@@ -42,6 +43,10 @@ def _hook(event, args):
                 a = _abs(path)
                 if a is not None and not a.startswith(("/dev/null", "/proc/")):
                     _REC.append(("open_w", a))
+            elif _READS:
+                a = _abs(path)
+                if a is not None and not a.startswith(("/dev/null", "/dev/urandom", "/dev/tty", "/proc/", "/usr/", "/venv/", "/opt/", "/etc/", "/sys/")):
+                    _REC.append(("open_r", a))
         elif event in _PATH_EVENTS:
             for i in _PATH_EVENTS[event]:
                 if i < len(args):
@@ -62,18 +67,27 @@ def install():
 class recording(object):
     """with recording() as ev: ...   ev is the list of (event, absolute path)"""
 
+    def __init__(self, reads=False):
+        self.reads = reads
+
     def __enter__(self):
-        global _REC
+        global _REC, _READS
         install()
-        self.prev = _REC
+        self.prev = (_REC, _READS)
         _REC = []
+        _READS = self.reads
         self.events = _REC
         return self.events
 
     def __exit__(self, *a):
-        global _REC
-        _REC = self.prev
+        global _REC, _READS
+        _REC, _READS = self.prev
         return False
+
+
+def mark():
+    """current length of the active event list (None when not recording)"""
+    return len(_REC) if _REC is not None else None
 
 
 def inside(path, root):
